@@ -161,9 +161,9 @@ def examine(case):
         if t.kind != "id":
             continue
         name = t.val
-        is_alias_name = bool(re.fullmatch(r"al\d+|my col|sq\d+|sq_q\d+|[a-z]\d+|lit|c|j|cte1", name)) and name not in TABLES | COLUMNS
+        is_alias_name = bool(re.fullmatch(r"al\d+|my col|sq\d+|sq_q\d+|[a-z]\d+|lit|c|j|cte\d+", name)) and name not in TABLES | COLUMNS
         if name in TABLES or name in COLUMNS or name in ("s1", "s2", "db"):
-            if name == "cte1":
+            if re.fullmatch(r"cte\d+", name):
                 continue
             if t.quote != Q:
                 nxt = toks[i + 1] if i + 1 < len(toks) else None
@@ -176,7 +176,7 @@ def examine(case):
                   outer=outer)
                 break
         elif is_alias_name:
-            if name == "cte1":
+            if re.fullmatch(r"cte\d+", name):
                 if t.quote is not None and t.quote != Q:
                     F("identifier-quote", "WITH name quoted %r" % t.quote, outer=outer)
                 elif t.quote is None and Q is not None:
